@@ -182,6 +182,19 @@ def wire_value(msg, v):
         raise Bad(('encoders:text is not JSON', t1[:200]))
     if v1 != v2:
         raise Bad(('encoders:to_json and JSONEncoder disagree', (t1[:200], t2[:200])))
+    # the server-side encoder class (what dispatchers and integrations dump with) and a message nested inside another value
+    import pjrpc.server
+    try:
+        t3 = json.dumps(msg, cls=pjrpc.server.JSONEncoder)
+        t4 = json.dumps({'wrapped': [msg]}, cls=pjrpc.server.JSONEncoder)
+        t5 = json.dumps({'wrapped': [msg]}, cls=pjrpc.JSONEncoder)
+    except Exception as e:   # noqa
+        raise Bad(('encoders:the server JSONEncoder cannot encode the message (%s)' % type(e).__name__, str(e)[:200]))
+    ok3, v3 = jsonstrict.parse(t3)
+    ok4, v4 = jsonstrict.parse(t4)
+    ok5, v5 = jsonstrict.parse(t5)
+    if not (ok3 and ok4 and ok5) or v3 != v1 or v4 != {'wrapped': [v1]} or v5 != v4:
+        raise Bad(('encoders:the server JSONEncoder / a nested message encodes differently from to_json', (t1[:200], t3[:200], t4[:200])))
     return json.loads(t1), t1
 
 
@@ -356,6 +369,10 @@ def run_batchreq(c):
     if y.is_notification != all(e['id'] is None for e in elems):
         raise Bad(('fields:batch is_notification', None))
     fixpoint(x, y)
+    # a container built without id checking (strict=False) holds the same messages: same wire form, same notification status
+    lax = BatchRequest(*[Request(e['method'], mk_params(e['params']), e['id']) for e in elems], strict=False)
+    if json.dumps(lax.to_json(), sort_keys=True) != json.dumps(x.to_json(), sort_keys=True) or lax.is_notification != x.is_notification or len(lax) != len(x):
+        raise Bad(('fields:a non-strict batch request differs from the strict one (wire form / is_notification)', (lax.is_notification, x.is_notification)))
     for r in y:
         poison(r.params)
 
